@@ -191,10 +191,7 @@ func runErrpred(c *Ctx) {
 			"the executor's Result carries exactly the slice returned by the reflective call (unfiltered, in order)", fmt.Sprintf("ok=%v", ok))
 		// the value returned after the call is that Result (not a derived one)
 		retOK := true
-		var rv ssa.CallInstruction
-		for _, ci := range p.RegionCalls(exec, core.RVCall) {
-			rv = ci
-		}
+		rv := c.oneSite("RESULTLIT", "executor", "reflect.Value.Call", p.RegionCalls(exec, core.RVCall))
 		var rvA ssa.Instruction
 		if rv != nil {
 			if as, _ := p.Anchors(rv, exec); len(as) == 1 {
